@@ -17,7 +17,7 @@ func NewPeriod(start, end time.Time) Period {
 func NewPeriodWindow(t time.Time, size time.Duration) Period {
 	start := t.Truncate(size)
 	end := start.Add(size)
-	return Period{start, end}
+	return NewPeriod(start, end)
 }
 
 // NewPeriodWindowWeek 创建一周长度的时间窗口，从周一零点开始至周日 23:59:59 结束
